@@ -66,8 +66,8 @@ KINDS = ["send", "hook0", "hook1", "full0", "full1", "disc", "made"]
 class Ctx:
     """One execution: the scheduler plus everything the fakes record."""
 
-    def __init__(self):
-        self.coop = Coop(timeout=10.0)
+    def __init__(self, timeout=10.0):
+        self.coop = Coop(timeout=timeout)
         self.attempts = []      # (conn name, was open)
         self.writes = []        # (conn name, bytes)
         self.lost = 0
@@ -94,6 +94,8 @@ class FakeSerialHandle:
 # fails with it after a partial write (set only by the error-class sweep of run(); the scenarios
 # compared with the model use the defaults)
 CONN_OPTS = {"err": None, "flaky": False}
+# the reconnect callback is the real SyncTransport.connect (thread creation faked), not the counting stub
+REAL_CONNECT = [False]
 
 
 class FakeConn:
@@ -155,6 +157,24 @@ def make_classes(send_impl=None):
     if send_impl is not None:
         ITransport.send = send_impl
 
+    if REAL_CONNECT[0]:
+        class ITransportReal(ITransport):
+            """keeps SyncTransport.connect; every access to a `connect_task` attribute is a scheduling point"""
+            connect = SyncTransport.connect
+
+            def _get_ct(self):
+                if self._ctx is not None:
+                    self._ctx.point("R.ct")
+                return self.__dict__.get("_ct")
+
+            def _set_ct(self, value):
+                if self._ctx is not None:
+                    self._ctx.point("W.ct")
+                self.__dict__["_ct"] = value
+
+            connect_task = property(_get_ct, _set_ct)
+        ITransport = ITransportReal
+
     class IProtocol(BaseMySensorsProtocol):
         _ctx = None
 
@@ -194,6 +214,38 @@ def pinned_send():
     return fn
 
 
+class FakeThreading:
+    """stands in for `threading` inside mysensors.transport while the real connect() runs: a connect thread
+    is an object whose start() counts a reconnect attempt and, like the real one, refuses a second start"""
+
+    def __init__(self, ctx):
+        shim = self
+
+        class Thread:
+            def __init__(self, target=None, args=(), **_kw):
+                self.started = False
+                shim.ctx.point("tnew")
+
+            def start(self):
+                shim.ctx.point("tstart")
+                if self.started:
+                    raise RuntimeError("threads can only be started once")
+                self.started = True
+                shim.ctx.reconn += 1
+
+            def is_alive(self):
+                return self.started
+
+            def join(self, *_a):
+                return None
+        self.ctx = ctx
+        self.Thread = Thread
+        self.Lock = threading.Lock
+        self.Event = threading.Event
+        self.RLock = threading.RLock
+        self.current_thread = threading.current_thread
+
+
 class World:
     """Objects of one execution in a given start state, and its threads."""
 
@@ -220,6 +272,12 @@ class World:
         self.proto.transport = self.c0 if start in ("connected", "broken") else None
         self.transport._ctx = ctx
         self.proto._ctx = ctx
+        self._unpatch = None
+        if REAL_CONNECT[0]:
+            import mysensors.transport as m_transport
+            real_threading = m_transport.threading
+            m_transport.threading = FakeThreading(ctx)
+            self._unpatch = lambda: setattr(m_transport, "threading", real_threading)
         self.guarded = []
         self.threads = []
         for k in thread_kinds:
@@ -272,7 +330,11 @@ class World:
                 + "".join("1" if i in en else "0" for i in range(len(self.threads))))
 
     def close(self):
-        self.ctx.coop.shutdown()
+        try:
+            self.ctx.coop.shutdown()
+        finally:
+            if self._unpatch is not None:
+                self._unpatch()
 
 
 def other_threads(other):
@@ -463,8 +525,11 @@ class IDeque(collections.deque):
 class PlainConn:
     def __init__(self):
         self.writes = []
+        self.ctx = None          # set only by the stop() sweep: a scheduling point right before the write
 
     def write(self, data):
+        if self.ctx is not None:
+            self.ctx.point("wr")
         self.writes.append(data.decode())
 
     def close(self):
@@ -482,13 +547,16 @@ class _TimeShim:
         return 0.0
 
 
-def queue_run(counts, sched):
-    """counts: jobs per producer; sched: list of 'u' (pump) or producer index."""
+def queue_run(counts, sched, with_stop=False):
+    """counts: jobs per producer; sched: list of 'u' (pump), producer index, or 's' (the thread calling
+    stop(), only with_stop)."""
     import mysensors.task as task_mod
     from mysensors.gateway_serial import SerialGateway
-    ctx = Ctx()
+    ctx = Ctx(timeout=0.4 if with_stop else 10.0)
     gw = SerialGateway("/dev/verif-none")
     conn = PlainConn()
+    if with_stop:
+        conn.ctx = ctx
     gw.tasks.transport.protocol.transport = conn
     dq = IDeque()
     dq.ctx = ctx
@@ -505,17 +573,18 @@ def queue_run(counts, sched):
 
         prods = [ctx.coop.spawn(producer(i), f"p{i}") for i in range(len(counts))]
         pump = ctx.coop.spawn(gw.tasks._poll_queue, "pump")
-        for th in prods + [pump]:
+        stopper = ctx.coop.spawn(gw.tasks.stop, "stop") if with_stop else None
+        for th in prods + [pump] + ([stopper] if with_stop else []):
             ctx.coop.prime(th)
         for a in sched:
-            th = pump if a == "u" else prods[a]
+            th = pump if a == "u" else stopper if a == "s" else prods[a]
             if not th.done:
                 ctx.coop.resume(th)
         sent = [w.strip() for w in conn.writes]
         queued = [item[1][0] for item in collections.deque.__iter__(dq)]
         tag = pump.tag if not pump.done else "done"
         return {"sent": sent, "queue": queued, "order": list(dq.order), "pump": tag,
-                "pump_status": pump.status}
+                "pump_status": pump.status, "stop_status": stopper.status if with_stop else None}
     finally:
         task_mod.time = old_time
         ctx.coop.shutdown()
@@ -532,6 +601,21 @@ def judge_queue(counts, r):
         mine = [j for j in r["order"] if j.startswith(f"{i}.")]
         if mine != [f"{i}.{k}" for k in range(len(mine))]:
             return ("producer-order", f"producer {i} order {mine}")
+    return None
+
+
+def judge_queue_stop(r):
+    """With a user thread calling stop() in the mix: nobody dies, and what was sent is in queue order, each
+    command at most once (commands still queued at the stop need not be sent)."""
+    if r["pump_status"] not in ("run", "ret", "done"):
+        return ("pump-died", f"pump ended with {r['pump_status']}")
+    if r["stop_status"] not in ("run", "ret", "done", "new"):
+        return ("stop-raised", f"stop() ended with {r['stop_status']}")
+    if len(set(r["sent"])) != len(r["sent"]):
+        return ("sent-twice", f"a command was sent twice: {r['sent']}")
+    in_order = [j for j in r["order"] if j in set(r["sent"])]
+    if r["sent"] != in_order:
+        return ("not-queue-order", f"sent {r['sent']} but queued in the order {r['order']}")
     return None
 
 
@@ -672,6 +756,26 @@ def run(tier, seed, driver):
             finally:
                 CONN_OPTS["err"], CONN_OPTS["flaky"] = None, False
 
+    # (c4) the reconnect callback is the real SyncTransport.connect: a sender whose write fails and a
+    # reader that loses the connection both ask for a reconnect; neither may raise (oracle only)
+    REAL_CONNECT[0] = True
+    try:
+        for start, other in (("broken", "hook1"), ("broken", "full1"), ("connected", "hook1"), ("broken", "hook0")):
+            for path, obs, data in all_schedules(start, other, cap=400 if tier == "quick" else 6000):
+                res.count("real-connect-schedules")
+                res.distinct.add(digest(["rc", start, other, path]))
+                bad = [st for st in data["statuses"] if st not in ("ret", "run", "new", "done")]
+                if bad:
+                    res.oracle_failures.append({
+                        "key": {"kind": "reconnect-raised", "start": start, "other": other, "exc": bad[0]},
+                        "what": f"a thread ended with {bad[0]} when a failing send and a connection loss both request "
+                                f"a reconnect through the real SyncTransport.connect (start={start}, against={other}, "
+                                f"schedule={path})",
+                        "replay": {"op": "run", "sender": "send", "start": start, "other": other, "schedule": path,
+                                   "real_connect": True}})
+    finally:
+        REAL_CONNECT[0] = False
+
     # (c'') the real connection objects honour the contract the fakes stand for: write() on a usable
     # connection hands over the whole command, on a dead one it raises an OSError (which send() absorbs)
     for bad in real_connection_contract(res):
@@ -711,6 +815,42 @@ def run(tier, seed, driver):
         if bad:
             res.oracle_failures.append({"key": {"kind": "queue-" + bad[0]}, "what": bad[1],
                                         "replay": {"op": "queue", "counts": list(cnts), "schedule": sched}})
+    # (d') the same queue with a user thread calling stop() somewhere in the schedule (oracle only)
+    scases = []
+    for cnts in [(3,), (2, 1)]:
+        syms = ["u", "s"] + list(range(len(cnts)))
+        for L in range(2, 6 if tier == "quick" else 8):
+            for sched in itertools.product(syms, repeat=L):
+                if "s" in sched:
+                    scases.append((cnts, list(sched)))
+    for _ in range((300 if tier == "quick" else 6000) * common.effort(tier)):
+        np_ = rng.randrange(1, 4)
+        cnts = tuple(rng.randrange(1, 4) for _ in range(np_))
+        L = rng.randrange(6, 30)
+        sched = [rng.choice(["u", "u", "s"] + list(range(np_))) for _ in range(L)]
+        scases.append((cnts, sched))
+    if tier == "quick":
+        rng.shuffle(scases)
+        scases = scases[:1200]
+    blocked = 0
+    for cnts, sched in scases:
+        try:
+            r = queue_run(list(cnts), sched, with_stop=True)
+        except HarnessHang:
+            # the schedule asks a thread to move that is waiting for a lock a parked thread holds: not a
+            # schedule the real threads can follow
+            blocked += 1
+            res.count("queue-stop-infeasible")
+            if blocked > 40:
+                break
+            continue
+        res.count("queue-stop-schedules")
+        if r["sent"]:
+            res.distinct.add(digest(["qs", cnts, sched]))
+        bad = judge_queue_stop(r)
+        if bad:
+            res.oracle_failures.append({"key": {"kind": "queue-stop-" + bad[0]}, "what": bad[1] + f" (schedule {sched})",
+                                        "replay": {"op": "queue-stop", "counts": list(cnts), "schedule": sched}})
     res.evaluations = len(ops)
     res.rule = ("threads: send, _connection_lost(None/exc), connection_lost(None/exc), disconnect, "
                 "connection_made; 4 start states x 13 opposing thread sets; every maximal interleaving at "
@@ -765,6 +905,15 @@ def replay(payload):
         print(res.histogram)
         print("oracle:", bad)
         return 1 if bad else 0
+    if r.get("op") == "run" and r.get("real_connect"):
+        REAL_CONNECT[0] = True
+        try:
+            path, ens, obs, data = execute(r["start"], r["other"], r["schedule"], r.get("sender", "send"))
+        finally:
+            REAL_CONNECT[0] = False
+        print("schedule:", path)
+        print("thread outcomes:", data["statuses"])
+        return 1 if any(st not in ("ret", "run", "new", "done") for st in data["statuses"]) else 0
     if r.get("op") == "run" and r.get("write_error"):
         import builtins
         CONN_OPTS["err"], CONN_OPTS["flaky"] = getattr(builtins, r["write_error"]), bool(r.get("flaky"))
@@ -783,6 +932,12 @@ def replay(payload):
         print("oracle:", judge(data))
         sc = ",".join(map(str, path)) or "-"
         print("model:", common.Driver().run([f"TRRUN {r.get('sender', 'send')} {r['start']} {r['other']} {sc}"])[0])
+    elif r.get("op") == "queue-stop":
+        out = queue_run(r["counts"], r["schedule"], with_stop=True)
+        print("impl :", out)
+        bad = judge_queue_stop(out)
+        print("oracle:", bad)
+        return 1 if bad else 0
     elif r.get("op") == "queue":
         out = queue_run(r["counts"], r["schedule"])
         print("impl :", out)
